@@ -309,7 +309,12 @@ def run(case):
         # also independent of the reference: with only selected types raised, what is
         # delivered are exactly the elements of the pipeline description (abstract
         # interpreter) that contain no source example whose evaluation raised
-        if caught and term in (None, ('stopped',)) and \
+        # (not with a cache below the catch and examples that fail in one pass only:
+        # an occurrence served from the cache does not fail while another
+        # occurrence of the same source example does)
+        flaky_cached = any('pass' in f_ for f_ in case['faults']) and \
+            any(s_['op'] == 'cache' for s_ in desc['stages'])
+        if caught and term in (None, ('stopped',)) and not flaky_cached and \
                 all(issubclass(W.EXC_KINDS[k_], caught) for k_ in kinds_):
             shuffled = desc['stages'][-1]['op'] == 'reshuffle'
             am = pargen.abs_eval({'source': desc['source'],
